@@ -3,6 +3,7 @@ package main
 import (
 	"fmt"
 	"go/ast"
+	"go/constant"
 	"go/token"
 	"go/types"
 	"os"
@@ -361,9 +362,8 @@ func (w *World) ConstAtom(pkgRel, name string) string {
 	if !ok {
 		return "const:<unresolved " + pkgRel + "." + name + ">"
 	}
-	v := c.Val().ExactString()
-	if len(v) >= 2 && v[0] == '"' {
-		v = v[1 : len(v)-1]
+	if c.Val().Kind() == constant.String {
+		return "const:" + printableConst(constant.StringVal(c.Val()))
 	}
-	return "const:" + v
+	return "const:" + c.Val().ExactString()
 }
